@@ -428,8 +428,10 @@ impl ExpandedField<'_> {
         let id_deserialize_with = if is_id && is_required {
             Some(quote!(#[serde(deserialize_with = "graphql_client::serde_with::deserialize_id")]))
         } else if is_id {
+            // `deserialize_with` switches off serde's implicit "a missing `Option` is `None`":
+            // restore it, so that a nullable ID behaves like every other nullable field.
             Some(
-                quote!(#[serde(deserialize_with = "graphql_client::serde_with::deserialize_option_id")]),
+                quote!(#[serde(default, deserialize_with = "graphql_client::serde_with::deserialize_option_id")]),
             )
         } else {
             None
